@@ -59,7 +59,7 @@ class C29(core.Check):
     level_note = ("Trusted: Lean kernel + propext/Classical.choice/Quot.sound; POSIX os.path.join/abspath/splitext/split, os.makedirs, shutil.rmtree, os.remove, "
                   "tempfile.mkdtemp as modelled (exercised by the correspondence on the real filesystem); no symlinks, no permission failures, no alt-path fallback.")
     quick_n = 500
-    thorough_n = 6000
+    thorough_n = 4000
     rule = ("case = (name, base, temp, clean, filed, extensioned, fext, pre-existing dirs/sentinel files incl. other Filers' files in the holding directory, steps reopen(clear,reuse,clean,temp,fext)* close(clear)) where a third of the reopens change temp and/or fext, ('doer',) steps run a FilerDoer under a Doist, and a third of the cases run inside `with openFiler(...)` (blocks that leave the filer closed included); HOME points into the sandbox and names/bases contain '~', '~/x', '$HOME'; names/bases of 1-3 segments over "
             "plain, dotted ('..', '.', '', '.h', 'a.', '...', '..b', 'x.y') and unicode segments, occasionally absolute; all 16 flag combinations; thorough adds every name of <= 3 segments over "
             "{'..','.','','a','.h','a.b'} x 5 bases x 16 flag combinations. non-trivial = Filer constructed and at least one entry created or deleted; distinct by request line")
@@ -448,6 +448,11 @@ class C29(core.Check):
                 (lambda p: inside(p, new_temp) or (fell and not new_temp and in_alt(p)))
             # a head directory that does not exist yet is created by the Filer itself (makedirs): allowed; deleting a head
             # directory that was there before is not (the strict tests above)
+            if step is not None and step[0] == "remake":
+                # a direct remake() may fall back to the alternative head as well; the path it returns is not the Filer's .path
+                _base_ok = ok_new
+                ok_new = lambda p, _f=_base_ok: _f(p) or in_alt(p)
+                fell = True
             made_head = {e for e in created if e[1] == "d" and (e[0] == head[:len(e[0])] or (fell and e[0] == alth[:len(e[0])]))}      # the head and its missing ancestors
             if any(not ok_new(p) for p, _ in created - made_head):
                 out.append((i, "created-outside-head", old_temp, path))
